@@ -242,11 +242,18 @@ class Interp:
         obj.born_seq = len(self.events)
         return Ref(oid, obj.kind)
 
-    def note_mutation(self, ref, o, how, node):
+    def note_mutation(self, ref, o, how, node, stored=()):
         """mutation of an object created at module / class level (state shared by all decodes)"""
         sh = getattr(o, "shared", None)
         if sh and self.frames and self.frames[-1].finfo is not None:
             self.event("shared_mutation", (sh, how, ref), node)
+            # what is put into shared state is shared from now on: later writes to it outlive the decode just the same
+            for v in stored:
+                for x in (walk(v) if v is not None and not isinstance(v, (str, int)) else ()):
+                    if isinstance(x, Ref):
+                        ox = self.heap.get(x.oid)
+                        if ox is not None and getattr(ox, "shared", None) is None:
+                            ox.shared = sh if str(sh).endswith("(object kept there)") else "%s (object kept there)" % sh
 
     def raw_guard_list(self):
         """conjuncts of the current path; 'no exception so far' facts are wrapped
@@ -465,7 +472,13 @@ class Interp:
     def load_name(self, name, node=None):
         fr = self.frames[-1]
         if name in fr.env and name not in fr.globals_decl:
-            return self.simp(fr.env[name])
+            v = self.simp(fr.env[name])
+            if isinstance(v, Undef) and fr.finfo is not None and not name.startswith("<") and node is not None and \
+                    not getattr(self, "_quiet_unbound", False):
+                # bound on other paths only: UnboundLocalError on this one
+                self.event("raise", (Op("UnboundLocalError", Const(name)),), node)
+                self.note_raise(self.local_guard(state=True))
+            return v
         # closure frames (nested functions / comprehensions)
         for f in reversed(self.frames[:-1]):
             if f.finfo is not None and fr.finfo is not None and fr.finfo.parent is f.finfo and name in f.env:
@@ -629,7 +642,7 @@ class Interp:
             return
         if isinstance(obj, Ref) and isinstance(self.heap[obj.oid], Instance):
             o = self.heap[obj.oid]
-            self.note_mutation(obj, o, "attribute ." + name, node)
+            self.note_mutation(obj, o, "attribute ." + name, node, (val,))
             g = self.rel_guard(o.born)
             old = o.attrs.get(name)
             if old is None:
@@ -810,6 +823,10 @@ class _ExprMixin:
         return t
 
     def cmp(self, op, a, b):
+        if op in ("is", "isnot", "eq", "ne") and isinstance(a, Op) and isinstance(b, Op) and a.op == "enum" and b.op == "enum" and \
+                a.args[0] == b.args[0]:
+            same = a.args[1] == b.args[1]        # members of one enumeration are singletons
+            return Const(same if op in ("is", "eq") else not same)
         a, b = self.int_enum_value(a), self.int_enum_value(b)
         if op in ("eq", "ne"):
             # sequences of known length compare element by element
@@ -981,6 +998,11 @@ class _ExprMixin:
         base = self.simp(base)
         if isinstance(idx, Op) and idx.op == "sliceobj":
             return self.getslice(base, idx.args[0], idx.args[1], idx.args[2], node)
+        if isinstance(base, Op) and base.op == "attr:args" and base.args and isinstance(base.args[0], Op) and base.args[0].op == "excobj" \
+                and node is not None:
+            # e.args[k] of a caught exception: exceptions raised without arguments (assert, raise KeyError) have none
+            self.event("raise", (Op("call:IndexError", base, idx),), node)
+            self.note_raise(self.local_guard(state=True))
         if isinstance(base, Ite):
             if any(isinstance(x, Const) and x.v is None for x in (base.a, base.b)):
                 # one alternative is None: subscripting it raises TypeError on that path
@@ -1346,7 +1368,7 @@ class _CallMixin:
     def list_method(self, ref, o, name, args, kwargs, node):
         g = self.rel_guard(o.born)
         if name in ("append", "extend", "sort", "reverse", "insert", "pop", "remove", "clear", "add", "update", "discard"):
-            self.note_mutation(ref, o, "list." + name, node)
+            self.note_mutation(ref, o, "list." + name, node, tuple(args))
         if name == "add" and o.typ == "set":
             name = "append"
         if name == "update" and o.typ == "set":
@@ -1417,7 +1439,7 @@ class _CallMixin:
                 return hit[0] if hit else dflt
             return Op("dictget", ref, key, dflt)
         if name in ("update", "pop", "clear", "setdefault", "popitem"):
-            self.note_mutation(ref, o, "dict." + name, node)
+            self.note_mutation(ref, o, "dict." + name, node, tuple(args))
         if name == "update":
             src = self.simp(args[0]) if args else None
             g = self.rel_guard(o.born)
@@ -1559,6 +1581,31 @@ class _CallMixin:
         return Op("call", f, *args)
 
     def instantiate(self, cinfo, args, kwargs, node):
+        if cinfo.is_enum and len(args) == 1 and not kwargs:
+            # Enum(value): the member with that value; ValueError when there is none
+            ns = self.class_ns(cinfo) if hasattr(self, "class_ns") else None
+            members = []
+            for st in cinfo.node.body:
+                if isinstance(st, ast.Assign) and len(st.targets) == 1 and isinstance(st.targets[0], ast.Name):
+                    mv = self.class_attr(cinfo, st.targets[0].id)
+                    if mv is not None and not isinstance(mv, FuncV):
+                        members.append((st.targets[0].id, mv))
+            if members and all(isinstance(mv, Const) for _, mv in members):
+                arg = self.simp(args[0])
+                conds = [compare("eq", arg, mv) for _, mv in members]
+                none = and_(*[not_(c) for c in conds])
+                if none != FALSE:
+                    self.guard.append(none)
+                    try:
+                        if self.feasible():
+                            self.event("raise", (Op("call:ValueError", arg),), node)
+                            self.note_raise(self.local_guard(state=True))
+                    finally:
+                        self.guard.pop()
+                res = Undef("enum")
+                for (nm, mv), c in reversed(list(zip(members, conds))):
+                    res = ite(c, Op("enum", Const(cinfo.qual), Const(nm), mv), res)
+                return res
         if cinfo.is_enum:
             return Op("enumctor", Const(cinfo.qual), *args)
         base_exc = any(b.split(".")[-1].endswith(("Exception", "Error")) for b in cinfo.bases)
@@ -1941,7 +1988,7 @@ class _StmtMixin:
         if isinstance(base, Ref):
             o = self.heap[base.oid]
             if isinstance(o, DictObj):
-                self.note_mutation(base, o, "dict[key] = value", node)
+                self.note_mutation(base, o, "dict[key] = value", node, (v,))
                 g = self.rel_guard(o.born)
                 lc = tuple(l for l in self.loop_ctx if l not in getattr(o, "born_loops", ()))
                 o.entries.append((key, v, g, lc))
@@ -1950,7 +1997,7 @@ class _StmtMixin:
                 self.event("dict_store", (base, key, v), node)
                 return
             if isinstance(o, ListObj):
-                self.note_mutation(base, o, "list[i] = value", node)
+                self.note_mutation(base, o, "list[i] = value", node, (v,))
                 g = self.rel_guard(o.born)
                 if is_int(key) and o.concrete() and g == TRUE and 0 <= key.v < len(o.items) and not self.loop_ctx:
                     o.items[key.v] = ("v", v, TRUE)
@@ -2339,6 +2386,7 @@ class _LoopMixin:
         L.kind = kind
         L.iter = it
         L.parent = self.loop_ctx[-1] if self.loop_ctx else None
+        L.iter_sig = self.iter_sig(it)
         L.filter = None
         self.loops[L.lid] = L
         fused = self.fusable(it) if kind == "for" else None
@@ -2577,6 +2625,18 @@ class _LoopMixin:
             return term
         return subst(term, m)
 
+    def iter_sig(self, it):
+        """what the tracked containers an iterable refers to hold right now (to notice a later mutation)"""
+        sig = []
+        for x in (walk(it) if it is not None else ()):
+            if isinstance(x, Ref):
+                o = self.heap.get(x.oid)
+                if isinstance(o, ListObj):
+                    sig.append((x.oid, tuple(o.items)))
+                elif isinstance(o, DictObj):
+                    sig.append((x.oid, tuple(o.entries)))
+        return tuple(sig)
+
     def fusable(self, it):
         """a list / generator that holds exactly the elements one earlier loop produced under a per-element condition"""
         if not isinstance(it, Ref):
@@ -2587,6 +2647,8 @@ class _LoopMixin:
         _, L0, term, g = o.items[0]
         if L0.kind != "for" or L0.iter is None or L0.stops or L0 in self.loop_ctx:
             return None
+        if getattr(L0, "iter_sig", None) != self.iter_sig(L0.iter):
+            return None             # the source was modified since the comprehension ran
         gs = list(walk(g))
         if not any(x == L0.idx for x in gs):
             return None             # unconditional: elem_of re-indexes it
@@ -2812,6 +2874,12 @@ class _ExtMixin:
     def x_memoryview(self, a, k, n):
         return a[0]          # transparent view of the same bytes
 
+    def x_bytearray(self, a, k, n):
+        if not a and not k:
+            # an empty buffer that is filled step by step: tracked like a list of byte values
+            return self.mk_list([], "bytearray")
+        return None
+
     def x_bytes(self, a, k, n):
         if not a:
             return Const(b"")
@@ -2918,6 +2986,9 @@ class _ExtMixin:
             for it in so.items:
                 if it[0] == "v" and it[2] == TRUE and not (isinstance(it[1], Op) and it[1].op == "splat"):
                     store_pair(it[1])
+                elif it[0] == "v" and it[2] == TRUE:
+                    # a run of pairs the analysis keeps symbolic (sorted(d.items()), ...): merged like dict.update(<opaque>)
+                    d.entries.append((Op("**"), Op("dict", it[1].args[0]), TRUE, ()))
                 elif it[0] == "rep":
                     _, L, term, g = it
                     lo = self.as_list(term)
